@@ -12,7 +12,8 @@ Definition mini_contracts (acq : string -> list string) : contracts :=
      requires := fun _ => [];
      acquires := acq;
      user_acquires := fun k => if mem k ["Node.Process"; "Closer.Close"] then [L] else [];
-     constructors := []; waived := [] |}.
+     constructors := []; waived := [];
+     rank := fun l => if String.eqb l "Broker.lock" then 5%nat else if String.eqb l "graph.thresholdLock" then 6%nat else 7%nat |}.
 
 Definition send_body : prog :=
   PSeq (PAct (Acq L MR)) (PSeq (PAct (Rd "Broker.nodes")) (PSeq (PAct (Rel L MR)) (PSeq (PCall "process") PRet))).
@@ -45,7 +46,20 @@ Definition send_holding : prog :=
   PSeq (PAct (Acq L MR)) (PSeq (PDefer (Rel L MR)) (PSeq (PAct (Rd "Broker.nodes")) (PSeq (PCall "process") PRet))).
 Definition mini_bad_send : program := [("Send", send_holding); ("process", process_body); ("RemoveNode", remove_good)].
 Example bad_send_rejected :
-  flat_complaints (check_program (mini mini_bad_send) mini_bad_send ["Send"; "RemoveNode"] [] []) = [("Send", KCallHolding, "process")].
+  flat_complaints (check_program (mini mini_bad_send) mini_bad_send ["Send"; "RemoveNode"] [] []) = [("Send", KCallHolding, "process"); ("Send", KLockOrder, "process")].
+Proof. vm_compute. reflexivity. Qed.
+
+(* the setter takes the threshold lock under the broker lock (in rank order); the inverted nesting is rejected *)
+Definition setter_good : prog :=
+  PSeq (PAct (Acq L MW)) (PSeq (PAct (Acq "graph.thresholdLock" MW)) (PSeq (PAct (Rel "graph.thresholdLock" MW)) (PSeq (PAct (Rel L MW)) PRet))).
+Definition setter_inverted : prog :=
+  PSeq (PAct (Acq "graph.thresholdLock" MW)) (PSeq (PAct (Acq L MW)) (PSeq (PAct (Rel L MW)) (PSeq (PAct (Rel "graph.thresholdLock" MW)) PRet))).
+Definition mini_order_ok : program := (mini_good ++ [("Set", setter_good)])%list.
+Definition mini_order_bad : program := (mini_good ++ [("Set", setter_inverted)])%list.
+Example order_accepted : check_program (mini mini_order_ok) mini_order_ok ["Send"; "RemoveNode"; "Set"] [] [] = [].
+Proof. vm_compute. reflexivity. Qed.
+Example order_rejected :
+  flat_complaints (check_program (mini mini_order_bad) mini_order_bad ["Send"; "RemoveNode"; "Set"] [] []) = [("Set", KLockOrder, L)].
 Proof. vm_compute. reflexivity. Qed.
 
 Definition fenv_good := fenv_of (reachable mini_good ["Send"; "RemoveNode"]).
